@@ -1,0 +1,8 @@
+//go:build !verif
+
+package file
+
+// VerifPoint is a no-op unless csvq is built with the "verif" build tag.
+func VerifPoint(_ string, _ string) {}
+
+func verifPoint(_ string, _ string) {}
